@@ -2,7 +2,10 @@
 Proof: coq/Properties_C02.v (legality of the rows is an invariant of every history of guarded
 swap/insert/unplace/place operations).  Tie: (a) harness/dplace.cpp: DetailedPlacement driven with random
 and EXHAUSTIVELY enumerated operation sequences, the whole structure compared with Moves.v after every
-operation, DetailedPlacement::check() whenever every cell is placed; (b) harness/dopt.cpp: every optimiser
+operation, DetailedPlacement::check() whenever every cell is placed; the same sequences replayed on the
+CONCRETE model MovesConcrete.v (proved to refine Moves.v): the private index arrays rowFirstCell_/
+rowLastCell_/cellPred_/cellNext_/cellRow_/cellX_/cellY_/cellOrientation_ compared after every operation
+(tag DC); (b) harness/dopt.cpp: every optimiser
 pass of DetailedPlacer driven directly with arbitrary window arguments, the placement it holds checked
 with the proved checker legalb; (c) Circuit::placeDetailed with a recording callback: legalb at every
 Detailed callback and on return, cells it does not optimise stay where legalization put them, it never
@@ -27,6 +30,12 @@ def run(ctx):
         exh += common.harness_gen(harness, ["exh", 3])
     lines += exh
     impl, model, _ = common.run_both([harness, "run"], [driver], lines)
+    # the same sequences on the concrete (pointer array) model: arrays + abs(arrays) after every operation
+    dc_lines = ["DC" + l[2:] for l in (lines if not ctx.quick else lines[:len(lines) - len(exh)][:8000] + exh)]
+    dc_impl, dc_model, _ = common.run_both([harness, "run"], [driver], dc_lines)
+    dc_mism = [(l, i, m) for l, i, m in zip(dc_lines, dc_impl, dc_model)
+               if i.replace(" CHECKFAIL", "").strip() != m.strip() or "ABS-NONE" in m]
+    dc_ops = sum(m.count("/ OK") for m in dc_model)
     mism, ofail, nontriv = [], [], set()
     ops_ok = ops_no = 0
     for l, i, m in zip(lines, impl, model):
@@ -56,10 +65,15 @@ def run(ctx):
                           % (len(mism), len(lines)),
                           {"broken": "correspondence of coq/Moves.v (theorem c02_moves_keep_rows_legal)",
                            "first_difference": {"case": mism[0][0], "implementation": mism[0][1], "model": mism[0][2]}}, found_input=False)
+        if dc_mism:
+            ctx.violation("correspondence MovesConcrete.v <-> the index arrays of DetailedPlacement broken (%d of %d operation sequences differ); no illegal exposed state found"
+                          % (len(dc_mism), len(dc_lines)),
+                          {"broken": "correspondence of coq/MovesConcrete.v (theorem c02c_concrete_refines_abstract)",
+                           "first_difference": {"case": dc_mism[0][0], "implementation": dc_mism[0][1], "model": dc_mism[0][2]}}, found_input=False)
         if not proof_ok:
             ctx.violation("proof obligations of Properties_C02.v do not check", {"broken": "Properties_C02.v", "detail": proof}, found_input=False)
     cov = dict(proof)
-    cov.update({"trusted_base": common.TRUSTED_BASE + ["the five index arrays of DetailedPlacement are abstracted by per-row lists (compared through rowCells())",
+    cov.update({"trusted_base": common.TRUSTED_BASE + ["the five index arrays of DetailedPlacement: modelled (MovesConcrete.v), proved to refine the per-row lists, and compared array by array (tag DC); the lists are compared through rowCells()",
                                                         "lemon NetworkSimplex (shift pass) is not modelled: legality after shifts is validated per pass"],
                 "evaluations": len(lines) + dres["runs"] + cres["runs"],
                 "distinct_nontrivial": len(nontriv) + dres["nontrivial"] + cres["moved_runs"],
@@ -71,7 +85,9 @@ def run(ctx):
                 "exposed_states_checked_legal": cres["states"] + dres["ops"],
                 "shift_passes_checked_against_proved_guard": dres["shifts_checked"],
                 "samples": [lines[0], exh[len(exh) // 2], cres["lines"][0][:500]],
-                "model_vs_impl_differences": len(mism), "impl_outputs_violating_statement": len(ofail)})
+                "concrete_array_sequences": len(dc_lines), "concrete_array_ops_performed": dc_ops,
+                "concrete_array_differences": len(dc_mism),
+                "model_vs_impl_differences": len(mism) + len(dc_mism), "impl_outputs_violating_statement": len(ofail)})
     return ctx.finish(LEVEL, cov, ["legality after the shift pass is validated, not proved",
                                    "model tied to the code by exact comparison on the cases of this run"])
 
@@ -79,13 +95,13 @@ def run(ctx):
 def replay(ctx, path):
     r = json.load(open(path))["replay"]
     case = r.get("case") or r["first_difference"]["case"]
-    name = {"DM": "dplace", "DO": "dopt", "DP": "detailed"}[case[:2]]
+    name = {"DM": "dplace", "DC": "dplace", "DO": "dopt", "DP": "detailed"}[case[:2]]
     harness = common.build_harness(name)
     driver = common.build_driver()
     if name == "dplace":
         impl, model, _ = common.run_both([harness, "run"], [driver], [case])
         print("case :", case); print("impl :", impl[0]); print("model:", model[0])
-        return 1 if impl[0].strip() != model[0].strip() or "CHECKFAIL" in impl[0] or "THROW" in impl[0] else 0
+        return 1 if impl[0].replace(" CHECKFAIL", "").strip() != model[0].strip() or "CHECKFAIL" in impl[0] or "THROW" in impl[0] else 0
     impl, _, _ = common.run_both([harness, "run"], None, [case])
     print("case :", case); print("impl :", impl[0])
     print("(legality of each exposed state: re-run ./check C02 with this case in corpus/C02/cases.txt)")
